@@ -85,7 +85,8 @@ func newContainer(kind int, initial []ap.Item, spare int, total uint) *container
 		p := &ap.CollectionPage{ID: "https://example.com/col?page=1", Type: ap.CollectionPageType, Items: mk(), TotalItems: total}
 		c.item, c.app, c.contains, c.count, c.coll = p, p.Append, func(x ap.Item) bool { return p.Contains(x) }, p.Count, func() ap.ItemCollection { return p.Collection() }
 	case 5:
-		p := &ap.OrderedCollectionPage{ID: "https://example.com/ocol?page=1", Type: ap.OrderedCollectionPageType, OrderedItems: mk(), TotalItems: total}
+		// (StartIndex, like TotalItems, describes the logical collection: it must not influence membership)
+		p := &ap.OrderedCollectionPage{ID: "https://example.com/ocol?page=1", Type: ap.OrderedCollectionPageType, OrderedItems: mk(), TotalItems: total, StartIndex: total / 2}
 		c.item, c.app, c.contains, c.count, c.coll = p, p.Append, func(x ap.Item) bool { return p.Contains(x) }, p.Count, func() ap.ItemCollection { return p.Collection() }
 	}
 	return c
@@ -216,7 +217,19 @@ func makePool(t *core.Tape, n int, rich bool) []poolItem {
 				base = base[:j]
 			}
 			variant := ""
-			switch t.Draw(5) {
+			switch t.Draw(6) {
+			case 5:
+				// the scheme's default port spelled out: another host:port as far as IRI equality goes
+				if k := strings.Index(base, "://"); k > 0 {
+					rest := base[k+3:]
+					if sl := strings.Index(rest, "/"); sl > 0 && !strings.Contains(rest[:sl], ":") {
+						port := ":443"
+						if base[:k] == "http" {
+							port = ":80"
+						}
+						variant = base[:k+3] + rest[:sl] + port + rest[sl:]
+					}
+				}
 			case 4:
 				// repeated query key: the multiset of values matters, not just the first one
 				variant = base + "?tag=go&tag=" + fmt.Sprint(10+i)
@@ -233,6 +246,11 @@ func makePool(t *core.Tape, n int, rich bool) []poolItem {
 					if sl := strings.Index(rest, "/"); sl > 0 && !strings.Contains(rest[:sl], ":") {
 						variant = base[:k+3] + rest[:sl] + ":" + fmt.Sprint(9000+i) + rest[sl:]
 					}
+				}
+			}
+			for _, q := range pool {
+				if q.id == variant {
+					variant = "" // (the pool's ids stay pairwise distinct)
 				}
 			}
 			if variant != "" {
